@@ -39,11 +39,13 @@ class CtxB(ExecutionContext):
 
 CTX = {"A": CtxA, "B": CtxB}
 # how an implementation is bound to execution contexts
-BINDINGS = ["A", "B", "A|B", "via-A", "via-B", "via-A|B", "A+via-B"]
+BINDINGS = ["A", "B", "A|B", "via-A", "via-B", "via-A|B", "A+via-B", "free"]      # "free": bound to no context at all
 OUTCOMES = ["value", "content_error", "skip", "none"]
 
 
 def contexts_of(binding):
+    if binding == "free":
+        return set(["A", "B"])
     s = set()
     if "A" in binding.replace("via-", ""):
         s.add("A")
@@ -53,7 +55,7 @@ def contexts_of(binding):
 
 
 class World(object):
-    def __init__(self, bindings, outcome_of, value_of, two_points=False):
+    def __init__(self, bindings, outcome_of, value_of, two_points=False, under_mid=None, nested=False):
         w = self
         w.invoked = []
 
@@ -61,6 +63,13 @@ class World(object):
             rp = sf.RegistryPoint()
             other = sf.RegistryPoint()
         w.S = S
+
+        w.Mid = None
+        if nested or any(under_mid or []):
+            class Mid(S):             # a nested registry: it declares the point again, implementations may be registered at either level
+                rp = sf.RegistryPoint()
+            w.Mid = Mid
+        w.under_mid = dict(enumerate(under_mid or []))
         w.impls = []
         w.classes = []
         w.outcome_of, w.value_of = outcome_of, value_of
@@ -72,7 +81,7 @@ class World(object):
         outcome_of, value_of, S = w.outcome_of, w.value_of, w.S
         if True:
             deps = []
-            names = b.split("+")
+            names = [] if b == "free" else b.split("+")
             for nm in names:
                 via = nm.startswith("via-")
                 cs = nm.replace("via-", "").split("|")
@@ -103,53 +112,85 @@ class World(object):
             impl.__name__ = "rp"
             impl.__symx_order__ = 10 + i
             ds = plugins.datasource(*deps)(impl)
-            cls = sf.SpecSetMeta("I%d" % i, (S,), {"rp": ds, "__module__": __name__})
+            cls = sf.SpecSetMeta("I%d" % i, (w.Mid if w.under_mid.get(i) else S,), {"rp": ds, "__module__": __name__})
             w.impls.append(ds)
             w.classes.append(cls)
 
 
+def both_points(w):
+    g_ = dr.get_dependency_graph(w.S.rp)
+    if w.Mid is not None:
+        g_.update(dr.get_dependency_graph(w.Mid.rp))
+    return g_
+
+
 def oracle(bindings, active):
-    """index of the last registered implementation declared for the active context (None if there is none)"""
+    """index of the last registered context-bound implementation declared for the active context (None if there is none)"""
     last = None
     for i, b in enumerate(bindings):
-        if active in contexts_of(b):
+        if b != "free" and active in contexts_of(b):
             last = i
     return last
 
 
 def judge(bindings, active, outcomes, w, broker, value_eq):
+    """context-bound implementations: only the last one declared for the active context may run.  Implementations bound to no
+    context cannot be switched off by context, they all run; the spec is supplied by the latest implementation, among those that
+    may run, that left a result (a value, or None)"""
     bad = []
     L = oracle(bindings, active)
+    free = [i for i, b in enumerate(bindings) if b == "free"]
+    may_run = set(free) | (set([L]) if L is not None else set())
     for i in w.invoked:
+        if i in may_run:
+            continue
         if active not in contexts_of(bindings[i]):
             bad.append("implementation %d (%s) ran under context %s" % (i, bindings[i], active))
-        elif i != L:
+        else:
             bad.append("overridden implementation %d ran although %d was registered later for context %s" % (i, L, active))
-    if w.invoked.count(L) > 1:
-        bad.append("implementation %d ran %d times" % (L, w.invoked.count(L)))
-    present = w.S.rp in broker
-    if L is None or outcomes.get(L) != "value":
-        # "none": the implementation returned None -> the broker stores None; a spec whose value is None is reported as such
-        if L is not None and outcomes.get(L) == "none":
-            if not (present and broker[w.S.rp] is None):
-                bad.append("spec should carry the None returned by implementation %d" % L)
-        elif present:
-            bad.append("spec has a value although the implementation in force (%s) yielded nothing" % (L,))
-    else:
-        if not present:
-            bad.append("spec is absent although implementation %d produced a value" % L)
-        elif not value_eq(broker[w.S.rp], L):
-            bad.append("spec value is not the value of implementation %d" % L)
+    for i in may_run:
+        if w.invoked.count(i) > 1:
+            bad.append("implementation %d ran %d times" % (i, w.invoked.count(i)))
+    # overriding works by name across the levels of a nested registry (the handlers are kept on the highest class); each level's
+    # point is supplied by the implementations registered at that level
+    # (the nested registry's point is itself hooked into the top-level point as its oldest implementation: a fallback)
+    sup = {}
+    for level, point in ((("mid", w.Mid.rp),) if w.Mid is not None else ()) + (("top", w.S.rp),):
+        mine = [i for i in may_run if bool(w.under_mid.get(i)) == (level == "mid")]
+        supplier = None
+        for i in sorted(mine, reverse=True):
+            if outcomes.get(i) in ("value", "none"):
+                supplier = i
+                break
+        if level == "top" and supplier is None:
+            supplier = sup.get("mid")
+        sup[level] = supplier
+        present = point in broker
+        tag = "spec" if level == "top" else "spec of the nested registry"
+        if supplier is None:
+            if present:
+                bad.append("%s has a value although no implementation in force (%s) yielded anything" % (tag, sorted(mine)))
+        elif outcomes.get(supplier) == "none":
+            # the implementation returned None -> the broker stores None; a spec whose value is None is reported as such
+            if not (present and broker[point] is None):
+                bad.append("%s should carry the None returned by implementation %d" % (tag, supplier))
+        else:
+            if not present:
+                bad.append("%s is absent although implementation %d produced a value" % (tag, supplier))
+            elif not value_eq(broker[point], supplier):
+                bad.append("%s value is not the value of implementation %d (the latest one in force that produced something)" % (tag, supplier))
     if w.S.other in broker:
         bad.append("unimplemented spec has a value")
     return bad
 
 
-def make_o1(k):
+def make_o1(k, pool=None, nested=False):
+    pool = pool or BINDINGS[:7]
+
     def o1(en):
         with REG:
             n = 1 + en.choice("k", k)
-            bindings = [BINDINGS[en.choice("bind%d" % i, len(BINDINGS))] for i in range(n)]
+            bindings = [pool[en.choice("bind%d" % i, len(pool))] for i in range(n)]
             active = "AB"[en.choice("active", 2)]
             chosen = {}
 
@@ -162,14 +203,15 @@ def make_o1(k):
             def value_of(i):
                 vals[i] = en.fresh_int("v%d" % i)
                 return vals[i]
-            w = World(bindings, outcome_of, value_of)
+            mids = [en.flag("under_mid%d" % i) if nested else False for i in range(n)]       # registered in the nested registry or the top one
+            w = World(bindings, outcome_of, value_of, under_mid=mids, nested=nested)
             broker = dr.Broker()
             broker[CTX[active]] = CTX[active]()
-            case = lambda mv: {"bindings": bindings, "active": active, "outcomes": dict((str(i), o) for i, o in chosen.items()),  # noqa
+            case = lambda mv: {"bindings": bindings, "active": active, "outcomes": dict((str(i), o) for i, o in chosen.items()), "under_mid": mids, "nested": nested,  # noqa
                                "values": dict((str(i), mv.int(v)) for i, v in vals.items())}
             en.note_sample(case)
             with oset.symbolic_order(mode="global"):
-                dr.run(dr.get_dependency_graph(w.S.rp), broker=broker)
+                dr.run(both_points(w), broker=broker)
             eqs = []
 
             def value_eq(got, L):
@@ -190,7 +232,7 @@ def make_o2(k):
     def o2(en):
         with REG:
             n = 1 + en.choice("k", k)
-            bindings = [BINDINGS[en.choice("bind%d" % i, len(BINDINGS))] for i in range(n)]
+            bindings = [BINDINGS[en.choice("bind%d" % i, 7)] for i in range(n)]
             active = "AB"[en.choice("active", 2)]
             chosen = {}
 
@@ -206,13 +248,15 @@ def make_o2(k):
                 vals[i] = en.fresh_int("v%d_%d" % (i, cnt[0]))
                 return vals[i]
             w = World([], outcome_of, value_of)
+            mids = [False] * n
+            w.under_mid = dict(enumerate(mids))
             evals = []
             for i in range(n):
                 w.add(i, bindings[i])
                 if i + 1 < n and not en.flag("eval%d" % i):
                     continue
                 evals.append(i + 1)
-                case = lambda mv, ev=list(evals): {"bindings": bindings, "active": active, "evaluate_after": ev,  # noqa
+                case = lambda mv, ev=list(evals): {"bindings": bindings, "active": active, "evaluate_after": ev, "under_mid": mids,  # noqa
                                                    "outcomes": dict((str(j), o) for j, o in chosen.items()),
                                                    "values": dict((str(j), mv.int(v)) for j, v in vals.items())}
                 en.note_sample(case)
@@ -220,7 +264,7 @@ def make_o2(k):
                 broker = dr.Broker()
                 broker[CTX[active]] = CTX[active]()
                 with oset.symbolic_order(mode="global"):
-                    dr.run(dr.get_dependency_graph(w.S.rp), broker=broker)
+                    dr.run(both_points(w), broker=broker)
                 eqs = []
 
                 def value_eq(got, L):
@@ -243,10 +287,14 @@ def obligations(tier):
            plugins.datasource.invoke, dr.walk_tree]
     return [Obligation("O1-override", make_o1(k), ["latest-wins"],
                        desc="registration histories of <= %d implementations of one registry point, each bound to contexts A/B directly, as an at-least-one list, through an intermediate datasource, or mixed" % k,
-                       bounds={"implementations": k, "bindings": BINDINGS, "active context": ["A", "B"], "outcomes": OUTCOMES,
+                       bounds={"implementations": k, "bindings": BINDINGS[:7], "active context": ["A", "B"], "outcomes": OUTCOMES,
                                "values": "unconstrained symbolic ints", "set order": "every global order"},
                        outside=["the ~1000 shipped spec entries are instances of the mechanism and are not re-verified one by one",
                                 "implementations that subclass another implementation class instead of the registry class"],
+                       encoded=enc, budget_s=900 if thorough else 120, replay="override", check_sample=True),
+            Obligation("O3-free-and-nested", make_o1(3 if thorough else 2, ["A", "via-A", "A|B", "B", "free"], True), ["latest-wins"],
+                       desc="implementations bound to no context at all (they cannot be switched off by context: the latest one that left a result supplies the spec) and a nested registry that declares the point again (overriding works by name across both levels; the nested point is the top-level point's oldest implementation)",
+                       bounds={"implementations": 3 if thorough else 2, "bindings": ["A", "via-A", "A|B", "B", "free"], "registered in": "the top registry or the nested one, per implementation", "outcomes": OUTCOMES, "set order": "every global order"},
                        encoded=enc, budget_s=900 if thorough else 120, replay="override", check_sample=True),
             Obligation("O2-interleaved", make_o2(3 if thorough else 2), ["latest-wins"],
                        desc="registrations interleaved with evaluations: the registry point may be evaluated after any registration (a spec set loaded after an earlier evaluation in the same process); every evaluation is judged against the implementations registered so far",
@@ -264,6 +312,7 @@ def _native(case):
     val = lambda i: given.get(i, 1000 + i)  # noqa  (the values of the counterexample; 0 / negative matter to truthiness slips)
     if "evaluate_after" in case:
         w = World([], lambda i: outcomes.get(i, "value"), val)
+        w.under_mid = dict(enumerate(case.get("under_mid") or []))
         bad = []
         full = dict((i, outcomes.get(i, "value")) for i in range(len(bindings)))
         for i, b in enumerate(bindings):
@@ -272,14 +321,14 @@ def _native(case):
                 w.invoked[:] = []
                 broker = dr.Broker()
                 broker[CTX[case["active"]]] = CTX[case["active"]]()
-                dr.run(dr.get_dependency_graph(w.S.rp), broker=broker)
+                dr.run(both_points(w), broker=broker)
                 bad += ["evaluation after %d registration(s): %s" % (i + 1, x)
                         for x in judge(bindings[:i + 1], case["active"], full, w, broker, lambda got, L: got == val(L))]
         return bad
-    w = World(bindings, lambda i: outcomes.get(i, "value"), val)
+    w = World(bindings, lambda i: outcomes.get(i, "value"), val, under_mid=case.get("under_mid"), nested=case.get("nested", False))
     broker = dr.Broker()
     broker[CTX[case["active"]]] = CTX[case["active"]]()
-    dr.run(dr.get_dependency_graph(w.S.rp), broker=broker)
+    dr.run(both_points(w), broker=broker)
     full = dict((i, outcomes.get(i, "value")) for i in range(len(bindings)))
     return judge(bindings, case["active"], full, w, broker, lambda got, L: got == val(L))
 
